@@ -426,6 +426,18 @@ func knownShape(c containerCase, data []byte, f *harness.Fail) *harness.Fail {
 		harness.Rec.Exclude(name)
 		return nil
 	}
+	// a reproducer of a recorded scale finding (noAvoid): which stage exceeds which bound first depends on small
+	// details of the library (a change in Info's buffering moves the first failure from the decode time to the Info
+	// allocation), so the finding is keyed by the shape, not by the stage
+	if c.NoAvoid {
+		sh := scanShape(data)
+		switch {
+		case sh.depth >= 1000:
+			return harness.Failf("C04|resources|nest-depth>=1000", "%s: %s", f.Key, f.Msg)
+		case sh.maxTraks >= 10000:
+			return harness.Failf("C04|resources|repeat>=10000", "%s: %s", f.Key, f.Msg)
+		}
+	}
 	return f
 }
 
